@@ -60,6 +60,11 @@ type gen struct {
 	avoidS15, avoidStatic, avoidNonce, avoidSize bool
 	excl   map[string]bool
 	budget int
+	// extra cast referred to by the program (gen_accounts_test.go)
+	used      map[string]bool
+	benef     [2][]byte
+	victimBal [2]int64
+	nobs      int
 }
 
 type frame struct {
@@ -101,7 +106,7 @@ func (g *gen) constant(f *frame) {
 
 // pushAddr pushes the address of one of the cast; returns nothing, purely an operand.
 func (g *gen) pushAddr(f *frame, _ bool) {
-	k := g.i(0, 7, "ak")
+	k := g.i(0, 9, "ak")
 	switch k {
 	case 0, 1, 2:
 		f.a.pushBytes(contractAddr(g.i(0, g.n-1, "ac")))
@@ -113,8 +118,15 @@ func (g *gen) pushAddr(f *frame, _ bool) {
 		f.a.pushInt(uint64(g.i(0, 9, "ap")))
 	case 6:
 		f.a.pushBytes(senderAddr)
-	default:
+	case 7:
 		g.o(f, 0x30, 0, 1) // ADDRESS
+	default:
+		// the pool of the account-inspection statements (absent / empty / precompile / victim ...)
+		t := g.pickTarget(f)
+		if t.kind == "self" && f.created && g.avoidNonce {
+			t = target{kind: "absent", addr: missingAddr}
+		}
+		g.pushTarget(f, t)
 	}
 }
 
@@ -247,12 +259,16 @@ func (g *gen) block(f *frame, n, d int) {
 }
 
 func (g *gen) stmt(f *frame, d int) {
-	k := g.i(0, 99, "s")
+	k := g.i(0, 113, "s")
 	if g.budget <= 0 {
 		k %= 20
 	}
 	g.budget -= 2
 	switch {
+	case k >= 100 && k < 109:
+		g.inspectStmt(f)
+	case k >= 109:
+		g.jumpStmt(f)
 	case k < 20:
 		g.expr(f, 2)
 		g.store(f)
@@ -720,7 +736,7 @@ func (g *gen) precompileStmt(f *frame) {
 }
 
 // initCode builds constructor code. Kinds: runtime | empty | revert | invalid | big | selfdestruct
-func (g *gen) initCode(parent *frame, noEmpty bool) []byte {
+func (g *gen) initCode(parent *frame, noEmpty, jumpy bool) []byte {
 	f := &frame{a: newAsm(), self: -1, entry: parent.entry, created: true, nest: parent.nest + 1, minT: parent.minT, inLoop: true, level: parent.level + 1}
 	kind := g.i(0, 9, "ik")
 	// S15 open: a CREATE in a frame reached by a call must not deploy code
@@ -738,13 +754,47 @@ func (g *gen) initCode(parent *frame, noEmpty bool) []byte {
 		g.excl[sigS16Size] = true
 		kind = 0
 	}
-	if g.i(0, 2, "ctor") == 0 {
+	if jumpy {
+		// the constructor jumps (the lengths of the dead regions make init codes differ a lot in size
+		// and in where their code / data bytes lie), may create a helper whose constructor jumps,
+		// and may try an invalid destination
+		g.jumpOver(f, fillSizes[g.i(0, len(fillSizes)-1, "cfill")])
+		if g.i(0, 2, "ctor") == 0 {
+			g.block(f, 1, 1)
+		}
+		if g.i(0, 3, "chelper") == 0 && f.nest < 2 {
+			if g.avoidNonce {
+				g.excl[sigS16Nonce] = true
+			} else {
+				g.emitCreate(f, g.i(0, 4, "hc2") == 0, true)
+				if g.i(0, 1, "hcall") == 0 {
+					g.callStackAddr(f)
+				} else {
+					g.observe(f)
+				}
+			}
+		}
+		switch g.i(0, 5, "cj2") {
+		case 0:
+			g.badJump(f)
+		case 1, 2:
+			g.jumpOver(f, fillSizes[g.i(0, 6, "cfill2")])
+		}
+	} else if g.i(0, 2, "ctor") == 0 {
 		g.block(f, g.i(1, 2, "cb"), 1)
 	}
 	switch {
 	case kind < 6:
 		rf := &frame{a: newAsm(), self: -1, entry: false, created: true, nest: parent.nest + 1, minT: parent.minT, inLoop: true, level: parent.level + 1}
-		g.block(rf, g.i(1, 3, "rb"), 1)
+		if jumpy {
+			g.jumpOver(rf, fillSizes[g.i(0, 7, "rfill")])
+			g.block(rf, g.i(0, 2, "rb"), 1)
+			if g.i(0, 3, "rbad") == 0 {
+				g.badJump(rf)
+			}
+		} else {
+			g.block(rf, g.i(1, 3, "rb"), 1)
+		}
 		g.terminator(rf)
 		rt := rf.a.link()
 		if len(rt) == 0 {
@@ -780,9 +830,9 @@ func (g *gen) initCode(parent *frame, noEmpty bool) []byte {
 	return f.a.link()
 }
 
-func (g *gen) createStmt(f *frame) {
-	c2 := g.i(0, 2, "c2") == 0
-	init := g.initCode(f, c2 && g.avoidNonce)
+// emitCreate emits CREATE / CREATE2 of a generated init code; the address (or 0) stays on the stack.
+func (g *gen) emitCreate(f *frame, c2, jumpy bool) {
+	init := g.initCode(f, c2 && g.avoidNonce, jumpy)
 	id := f.a.addData(init)
 	const at = 0x300
 	f.a.pushInt(uint64(len(init)))
@@ -804,50 +854,22 @@ func (g *gen) createStmt(f *frame) {
 	} else {
 		g.o(f, 0xf0, 3, 1)
 	}
+}
+
+func (g *gen) createStmt(f *frame) {
+	g.emitCreate(f, g.i(0, 2, "c2") == 0, g.i(0, 2, "cjumpy") == 0)
 	switch g.i(0, 3, "cc") {
 	case 0:
 		g.store(f)
 	case 1:
-		// keep the address: EXTCODESIZE / EXTCODEHASH of the new contract
-		g.o(f, 0x80, 0, 1)
-		q := []byte{0x3b, 0x3f, 0x31}[g.i(0, 2, "cq")]
-		if q == 0x3f && g.avoidNonce {
-			// S16 (nonce 0) open: EXTCODEHASH of a fresh contract without code is 0 (account "empty")
-			g.excl[sigS16Nonce] = true
-			q = 0x3b
-		}
-		g.o(f, q, 1, 1)
-		g.store(f)
+		// keep the address: EXTCODESIZE / EXTCODEHASH / BALANCE of the new contract
+		g.inspectStackAddr(f)
 		g.store(f)
 	default:
 		// call the new contract
 		g.o(f, 0x80, 0, 1)
 		g.store(f)
-		// stack: addr
-		f.a.pushInt(32)       // outSize
-		g.o(f, 0x90, 0, 0)    // addr on top
-		f.a.pushInt(0)        // outOff
-		g.o(f, 0x90, 0, 0)    //
-		f.a.pushInt(0)        // inSize
-		g.o(f, 0x90, 0, 0)    //
-		f.a.pushInt(0)        // inOff
-		g.o(f, 0x90, 0, 0)    //
-		op := callOps[g.i(0, 3, "ccop")]
-		if op == 0xfa && g.avoidStatic {
-			g.excl[sigS16Static] = true
-			op = 0xf1
-		}
-		if op == 0xf1 || op == 0xf2 {
-			f.a.pushInt(0)
-			g.o(f, 0x90, 0, 0)
-		}
-		g.pushGas(f, false)
-		if op == 0xf1 || op == 0xf2 {
-			g.o(f, op, 7, 1)
-		} else {
-			g.o(f, op, 6, 1)
-		}
-		g.afterCall(f, false)
+		g.callStackAddr(f)
 	}
 }
 
@@ -904,6 +926,9 @@ func (g *gen) contractCode(idx int) []byte {
 	g.block(f, pre, 2)
 	if idx < g.n-1 && g.i(0, 2, "forcecall") > 0 {
 		g.callStmt(f) // most contracts that can call forward do
+	}
+	if !f.pure && g.i(0, []int{4, 11}[min(idx, 1)], "factory") == 0 {
+		g.factoryStmt(f)
 	}
 	g.block(f, n-pre, 2)
 	g.terminator(f)
@@ -963,7 +988,7 @@ func genCase(leg string) func(t *rapid.T) EVMCase {
 			c.To = contractAddr(0)
 		case mk < 18:
 			f := &frame{entry: true, minT: 1} // a creation transaction never calls contract 0 (generated as entry code)
-			c.Data = g.initCode(f, false)
+			c.Data = g.initCode(f, false, g.i(0, 1, "txjumpy") == 0)
 		case mk == 18:
 			c.To = [][]byte{eoaAddr, missingAddr, {0, 0, 0, 0, 0, 0, 0, 0, 0, 0, 0, 0, 0, 0, 0, 0, 0, 0, 0, 2}, {0, 0, 0, 0, 0, 0, 0, 0, 0, 0, 0, 0, 0, 0, 0, 0, 0, 0, 0, 4}}[g.i(0, 3, "to")]
 		default:
@@ -999,6 +1024,7 @@ func genCase(leg string) func(t *rapid.T) EVMCase {
 		sb := []*big.Int{new(big.Int).Exp(big.NewInt(10), big.NewInt(18), nil), pow2(130), big.NewInt(0)}[[]int{0, 0, 0, 0, 0, 0, 0, 0, 1, 1, 1, 2}[g.i(0, 11, "sbal")]]
 		c.Accounts = append(c.Accounts, Acct{Addr: senderAddr, Balance: sb.Bytes(), Nonce: uint64(g.i(0, 2, "snonce"))})
 		c.Accounts = append(c.Accounts, Acct{Addr: eoaAddr, Balance: big.NewInt(1000).Bytes(), Nonce: 3})
+		c.Accounts = append(c.Accounts, g.extraAccounts()...)
 		if len(c.To) > 0 {
 			nd := []int{0, 4, 32, 36, 68, 100}[g.i(0, 5, "ndata")]
 			for len(c.Data) < nd {
